@@ -720,10 +720,11 @@ pub fn c02(thorough: bool, replay: Option<String>) -> i32 {
         }
     }
     cases.extend(calls_cases(None, if thorough { 3 } else { 2 }));
-    cases.extend(nested_cases(None));
+    // quick tier: every 2nd / 4th / 2nd member of these families by index (fixed sub-enumerations, the full families run in C01's quick tier)
+    cases.extend(nested_cases(None).into_iter().enumerate().filter(|(i, _)| thorough || i % 2 == 0).map(|(_, c)| c));
     cases.extend(many_helpers_cases(None, if thorough { 12 } else { 5 }));
-    cases.extend(cse_cases(None, thorough).into_iter().enumerate().filter(|(i, _)| thorough || i % 3 == 0).map(|(_, c)| c));
-    cases.extend(lookalike_cases(None, thorough, if thorough { &["main-body", "function-body", "defconst", "inline-argument"] } else { &["main-body"] }));
+    cases.extend(cse_cases(None, thorough).into_iter().enumerate().filter(|(i, _)| thorough || i % 4 == 0).map(|(_, c)| c));
+    cases.extend(lookalike_cases(None, thorough, if thorough { &["main-body", "function-body", "defconst", "inline-argument"] } else { &["main-body"] }).into_iter().enumerate().filter(|(i, _)| thorough || i % 2 == 0).map(|(_, c)| c));
     for e in kernel_exprs(1) {
         cases.push(kernel_case(&e, 0, None));
         if thorough {
@@ -732,7 +733,11 @@ pub fn c02(thorough: bool, replay: Option<String>) -> i32 {
         }
     }
     let n = cases.len() as u64;
-    let (st, capped) = par_range(n, 4, cap, || (), |_, st, i| check_c02_generated(st, &cases[i as usize], "generated"));
+    let (mut st, capped) = par_range(n, 4, cap, || (), |_, st, i| {
+        st.count(&format!("family:{}", cases[i as usize].tags[0].split('/').next().unwrap_or("")), 1);
+        check_c02_generated(st, &cases[i as usize], "generated")
+    });
+    st.max_samples = 6;
     rep.add_sub("generated", &format!("{} generated programs (binder chains, parameter shapes, operators/literals, code-lookalike quoted data, call graphs, kernels: a slice of C01's sub-spaces) x 6 sigils x 8 configurations x 2-3 valuations", n), n, true, capped, st);
 
     // shipped programs
